@@ -37,6 +37,7 @@ MODULE_ATTRS = {}        # (module, attr) -> factory(ex)
 EXTERNALS = {}           # dotted name -> contract qual
 OPAQUE_CLASSES = {'BindingStatement', 'BlockDeclaration', 'ImportStatement',
                   'IncludeStatement'}
+EMPTY_DICT_AS_RECORD = {}   # record kind name -> factory: what a fresh `{}` means in that view
 INLINE_CMS = set()          # quals of small generator context managers executed from source
 VAL_METHOD_CONTRACTS = {}  # method name on an opaque object -> contract qual
 
@@ -710,6 +711,9 @@ def materialize(ex, w, kind):
   """Turns the typeless displays (`[]`, `{}`, `[[]]`) into typed containers."""
   if isinstance(kind, KOpt):
     kind = kind.inner
+  if isinstance(w, VPy) and w.what == 'emptydict' and \
+      getattr(kind, 'rname', None) in EMPTY_DICT_AS_RECORD:
+    return EMPTY_DICT_AS_RECORD[kind.rname]()      # e.g. a fresh {} as the root of a tree view
   if isinstance(w, VPy) and w.what in ('emptylist', 'emptydict', 'emptyset'):
     if not isinstance(kind, (KList, KDict)):
       raise OutOfSubset(f'empty display used as {kind.name}')
